@@ -2109,7 +2109,7 @@ ssize_t hostlist_deranged_string(hostlist_t hl, size_t n, char *buf)
     for (i = 0; i < hl->nranges; i++) {
         size_t m = (n - len) <= n ? n - len : 0;
         int ret = hostrange_to_string(hl->hr[i], m, buf + len, ",");
-        if (ret < 0 || ret > m) {
+        if (ret < 0 || ret >= m) {
             len = n;
             truncated = 1;
             break;
